@@ -116,7 +116,7 @@ def narrow(ip, st, v):
         keep = []
         for k in feas:
             q = tm.Eq(tag, tm.Int(k))
-            r = solve.z3_check(tm.cone(list(st.pc), [q], st.defs) + [q], 1500)
+            r = solve.z3_check(tm.cone(list(st.pc), [q], st.defs) + [q], 5000, rlimit=400000)
             if r.verdict != "unsat":
                 keep.append(k)
         feas = keep
